@@ -245,22 +245,31 @@ func (e *arithExec) Do(line string) string {
 		off := float64(on) / float64(uint64(1)<<uint(od))
 		var typ *acmelib.SignalType
 		var err error
+		// every other line reaches the type's parameters through a HISTORY: the type is created
+		// with the other signedness, scale and offset, shared by a second signal in a second
+		// message, decoded once there, and only then updated (UpdateSigned, SetScale, SetOffset);
+		// the decoded value must be the one of the final parameters
+		history := kind != 1 && (raw^uint64(size))%2 == 1
+		signed0, scale0, off0 := signed, scale, off
+		if history {
+			signed0, scale0, off0 = !signed, scale*2+1, off+3
+		}
 		switch kind {
 		case 0:
-			typ, err = acmelib.NewCustomSignalType("t", size, signed, 0, 0, scale, off)
+			typ, err = acmelib.NewCustomSignalType("t", size, signed0, 0, 0, scale0, off0)
 		case 1:
 			typ = acmelib.NewFlagSignalType("t")
 		case 2:
-			typ, err = acmelib.NewIntegerSignalType("t", size, signed)
+			typ, err = acmelib.NewIntegerSignalType("t", size, signed0)
 		case 3:
-			typ, err = acmelib.NewDecimalSignalType("t", size, signed)
+			typ, err = acmelib.NewDecimalSignalType("t", size, signed0)
 		}
 		if err != nil {
 			return "err"
 		}
 		if kind == 2 || kind == 3 {
-			typ.SetScale(scale)
-			typ.SetOffset(off)
+			typ.SetScale(scale0)
+			typ.SetOffset(off0)
 		}
 		sig, err := acmelib.NewStandardSignal("s", typ)
 		if err != nil {
@@ -272,6 +281,21 @@ func (e *arithExec) Do(line string) string {
 		}
 		data := make([]byte, 8)
 		binary.LittleEndian.PutUint64(data, raw)
+		if history {
+			other, err := acmelib.NewStandardSignal("o", typ)
+			if err != nil {
+				return "err"
+			}
+			msg2 := acmelib.NewMessage("m2", 2, 8)
+			if err := msg2.InsertSignal(other, 0); err != nil {
+				return "err"
+			}
+			msg2.SignalLayout().Decode(data)
+			msg.SignalLayout().Decode(data)
+			typ.UpdateSigned(signed)
+			typ.SetScale(scale)
+			typ.SetOffset(off)
+		}
 		decs := msg.SignalLayout().Decode(data)
 		if len(decs) != 1 {
 			return sprintf("err decodings=%d", len(decs))
